@@ -23,6 +23,9 @@ spec -> code : TLC emits, for every basis field (and pair sums in thorough), the
                    sign of the point's coordinate (FieldOps AbsLocal) - and a few non-polynomial fields given natively in
                    cylindrical / spherical coordinates (r*(z^2)^(3/2), sqrt(r^2+z^2), ...), decided by the harness against
                    the Cartesian sympy.diff of the same field.
+               Every case is replayed in several CoordinateSystem objects of the same type in one process, interleaved
+               (object A, object B, a newly created one, A again); a result containing symbols foreign to the system of
+               the field is a violation.
 code -> spec : every value the real operators returned at a point for a polynomial field is written to a JSON
                trace; spec/FieldOpsTrace.tla lets TLC recompute it from the coefficient maps (Pad, Grad, Div,
                Curl, PEval) and reject differing records.  The verdict on those is TLC's.
@@ -58,15 +61,33 @@ CS = {}
 CALL_LIMIT = 30
 
 
-def _init():
+CUR = {}       # the coordinate-system object of each type used by the next operator calls
+PASSES = ("A", "B", "new", "A")
+
+
+def _types():
     from symplyphysics.core.coordinate_systems.coordinate_systems import CoordinateSystem
     s = CoordinateSystem.System
-    CS.update(cart=CoordinateSystem(s.CARTESIAN), cyl=CoordinateSystem(s.CYLINDRICAL),
-              sph=CoordinateSystem(s.SPHERICAL))
+    return CoordinateSystem, {"cart": s.CARTESIAN, "cyl": s.CYLINDRICAL, "sph": s.SPHERICAL}
+
+
+def _init():
+    """Two CoordinateSystem objects per type are created up front; a third one is created afresh whenever asked for
+    ("new"): every comparison runs in several distinct objects of the same type, interleaved in one process."""
+    cls, types = _types()
+    for name, t in types.items():
+        CS[name] = {"A": cls(t), "B": cls(t)}
+    _use("A")
+
+
+def _use(label):
+    cls, types = _types()
+    for name, t in types.items():
+        CUR[name] = cls(t) if label == "new" else CS[name][label]
 
 
 def scalars(system):
-    return list(CS[system].coord_system.base_scalars())
+    return list(CUR[system].coord_system.base_scalars())
 
 
 def _coords(p):
@@ -78,7 +99,7 @@ def lib_grad(system, fn):
     """fn(q) -> expression of the scalar field in the coordinates q.  Returns the 3 components."""
     from symplyphysics.core.fields.operators import gradient_operator
     from symplyphysics.core.fields.scalar_field import ScalarField
-    field = ScalarField(lambda p: fn(_coords(p)), CS[system])
+    field = ScalarField(lambda p: fn(_coords(p)), CUR[system])
     return list(gradient_operator(field).components)
 
 
@@ -86,14 +107,14 @@ def lib_div(system, fn):
     """fn(q) -> list of 0..3 component expressions."""
     from symplyphysics.core.fields.operators import divergence_operator
     from symplyphysics.core.fields.vector_field import VectorField
-    field = VectorField(lambda p: fn(_coords(p)), CS[system])
+    field = VectorField(lambda p: fn(_coords(p)), CUR[system])
     return divergence_operator(field)
 
 
 def lib_curl(system, fn):
     from symplyphysics.core.fields.operators import curl_operator
     from symplyphysics.core.fields.vector_field import VectorField
-    field = VectorField(lambda p: fn(_coords(p)), CS[system])
+    field = VectorField(lambda p: fn(_coords(p)), CUR[system])
     return list(curl_operator(field).apply_to_basis().components)
 
 
@@ -124,6 +145,12 @@ def _call(out, key, fn):
 def _compare(out, key, op, given, info, pt, observed, expected=None, record=True, absinfo=(0, 0)):
     """observed: list of sympy values (Cartesian components / [divergence]) at pt.
     expected: list of sympy values or None (then only TLC decides)."""
+    observed = [sp.sympify(v) for v in observed]
+    foreign = set().union(*[v.free_symbols for v in observed]) - {fc.THETA, fc.PHI}
+    if foreign:
+        out.verdicts.append(("violation", key, f"{op} at point ({pt.x},{pt.y},{pt.z}): the result contains symbols foreign "
+                                               f"to the coordinate system of the field: {sorted(map(str, foreign))}"))
+        return
     pairs = [fc.pair_of(v) for v in observed]
     if expected is not None and any(fc.has_inverse_trig(v) for v in list(expected) + list(observed)):
         out.verdicts.append(("outside", key, "value at the point is not reduced to a polynomial in the bare angles"))
@@ -385,6 +412,8 @@ def _numeric_zero(expr, q, funcs):
         e = e.subs(f, sp.Lambda((a, b, c), body))
     e = e.doit()
     val = e.subs({q[0]: sp.Rational(13, 10), q[1]: sp.Rational(7, 10), q[2]: sp.Rational(9, 10)})
+    if val.free_symbols:          # symbols foreign to the system of the field: certainly not identically zero
+        return False
     return abs(complex(sp.N(val, 30))) < 1e-20
 
 
@@ -396,7 +425,7 @@ def replay_generic(case):
         _init()
     out = Out(case)
     system = case["sys"]
-    cs = CS[system]
+    cs = CUR[system]
     q = scalars(system)
     key = f"generic:{case['id']}:{system}" + (f":given={case['given']}" if "given" in case else "")
     out.calls += 1
@@ -423,7 +452,7 @@ def replay_generic(case):
     return out.result()
 
 
-def replay_any(case):
+def _replay_one(case):
     t = case.get("type", "emit")
     if "abs" in case:
         return replay_abs(case)
@@ -434,6 +463,29 @@ def replay_any(case):
     if t == "curv":
         return replay_curv(case, case["pts"])
     return replay_generic(case)
+
+
+def replay_any(case):
+    """Replay the case in several CoordinateSystem objects of each type, one after the other in this process:
+    A, B, a newly created one, A again (case["passes"] may narrow this)."""
+    if not CS:
+        _init()
+    merged = None
+    for label in case.get("passes") or PASSES:
+        _use(label)
+        res = _replay_one(case)
+        for r in res["records"]:
+            r["inst"] = label
+        res["verdicts"] = [(k, key, what + (f" [coordinate-system object {label}]" if k == "violation" else ""))
+                           for k, key, what in res["verdicts"]]
+        if merged is None:
+            merged = res
+        else:
+            for k in ("records", "verdicts"):
+                merged[k] += res[k]
+            for k in ("calls", "py_decided"):
+                merged[k] += res[k]
+    return merged
 
 
 # ---- driver ------------------------------------------------------------------------------------------
@@ -534,8 +586,10 @@ def main() -> int:
         if not emitted:
             raise RuntimeError("TLC emitted no cases")
         pts = emitted[0]["pts"]
-        for c in emitted:
+        for i, c in enumerate(emitted):
             c["type"] = "emit"
+            if len(c["terms"]) > 1:           # pair sums (thorough): one object each, rotating through A, B, new
+                c["passes"] = [("A", "B", "new")[i % 3]]
         single = [c for c in emitted if len(c["terms"]) == 1]
         for c in single[:3] + single[-3:]:
             run.sample({"field": fc.field_name(fc.basis_terms(c["terms"])), "points": c["pts"],
@@ -560,10 +614,15 @@ def main() -> int:
         selftest_trace(run, sc, [r for i, r in enumerate(records, 1) if i not in rejected])
         # 4. generic identities
         if t["generic"]:
-            results = list(pmap(pool, replay_any, generic_cases(), chunk=1))
+            gcases = generic_cases()
+            for c in gcases:
+                c["passes"] = ["A", "B"]
+            results = list(pmap(pool, replay_any, gcases, chunk=1))
             collect(run, results, "generic_function_identities")
     run.coverage["bounds"] = {"model": t["model"], "emit": t["emit"], "curvilinear_monomial_degree": t["curv_deg"],
                               "points": pts, "trace_D": TRACE_D}
+    run.coverage["coordinate_system_objects"] = ("every case is replayed in the objects A, B, a newly created one and A again "
+                                                 "(same type, same process, in this order); pair sums in one of them, rotating")
     run.assumptions += [
         "the harness' own coordinate maps and local orthonormal frames (harness/fields_common.py) are the textbook "
         "ones; spherical order is (r, azimuth theta, polar phi) as documented by the library",
